@@ -36,6 +36,10 @@ CHECKS["C13"] = dict(engine="RMC", category="model_checking", technique="statele
 CHECKS["C11"] = dict(engine="RMC", category="model_checking", technique=X1T+"; virtual clock; recording data store",
   text="Shutdown (graceful, and forced with the context cancelled at every point) is explored from nine prefix states, alone and racing with schedule / cancel / save, up to the deviation bound; at return and at the end a monitor checks terminal jobs, no executing task, store == reported state, the admission gate, and the graceful/forced semantics; a separate scenario checks that the 3s persist loop stores every accepted change without an explicit save.", design="3/C11", note=RMC_NOTE)
 
+CHECKS["C09"] = dict(engine="CRASHFS", category="fault_enumeration", technique="exhaustive crash-point and fault enumeration on the real JsonDataStore over an intercepted file-system layer; exhaustive interleaving exploration (controlled scheduler) of two concurrent savers",
+  text="For histories of 1-3 saves over four snapshot sizes the real Save runs on a real directory through a recording os shim; at every completed call and at cut points inside every write the directory is inspected as a restarted process would see it: data.json absent (only before the first save) or loadable and equal to a snapshot it may hold then. Each call of a further save is made to fail once. Two concurrent savers are run under every interleaving of their calls.", design="3/C09",
+  note="Fault model: process death after any completed call or write prefix; no power-loss reordering. store/store.go is rebuilt with os -> vos by the instrumenter from the current tree.")
+
 PLANNED = {}
 props = [json.loads(l) for l in open('/verif/properties.jsonl')]
 hooks = subprocess.run(['git','-C','/repo','log','--format=%h %s','--grep=^verif hook'],capture_output=True,text=True).stdout.strip().splitlines()
@@ -50,6 +54,7 @@ m = {
    "add_only": True,
  },
  "engines": [
+   {"name": "CRASHFS", "path": "engine/crashfs.go", "serves_properties": ["C09"], "kind_free_text": "crash-point / fault enumeration over shim/vos"},
    {"name": "RMC", "path": "engine/", "serves_properties": sorted(k for k,v in CHECKS.items() if v["engine"]=="RMC"),
     "kind_free_text": "model checker for the real runner: AST instrumenter + cooperative scheduler shims (shim/), stateless DFS over schedules (X1) and explicit-state BFS over event histories (X2), log monitors"},
  ],
